@@ -128,9 +128,9 @@ class Ref:
                 return F(half_even_int(a))
             if name == 'round_n':
                 n = t[3]
-                res = F(half_even_int(a * 10 ** n), 10 ** n)
+                res = F(half_even_int(a * F(10) ** n)) / F(10) ** n
                 # Python quantize needs the result to fit the precision: out of the stated domain otherwise
-                if len(str(abs(int(res * 10 ** n)))) > 28:
+                if len(str(abs(int(res * F(10) ** n)))) > 28:
                     raise Undefined
                 return res
         raise ValueError(t)
@@ -152,7 +152,7 @@ def render(t):
         if t[1] in ('sum', 'min', 'max'):
             return f'{t[1]}([' + ', '.join(render(x) for x in t[2]) + '])'
         if t[1] == 'round_n':
-            return f'round({render(t[2])}, {t[3]})'
+            return f'round({render(t[2])}, {t[3]})' if t[3] >= 0 else f'round({render(t[2])}, (0 - {-t[3]}))'
         return f'{t[1]}({render(t[2])})'
     raise ValueError(t)
 
@@ -216,7 +216,8 @@ SEEDS = [
     ('bin', '+', ('lit', '9999999999999999999999999999'), ('lit', '0.5')),
     ('bin', '+', ('lit', '9999999999999999999999999998'), ('lit', '0.5')),
     ('fn', 'round', ('lit', '2.5')), ('fn', 'round', ('lit', '3.5')), ('fn', 'round_n', ('lit', '2.675'), 2),
-    ('fn', 'round_n', ('lit', '0.125'), 2), ('fn', 'floor', ('neg', ('lit', '0.5'))), ('fn', 'ceil', ('neg', ('lit', '0.5'))),
+    ('fn', 'round_n', ('lit', '0.125'), 2), ('fn', 'round_n', ('lit', '1250.5'), -2), ('fn', 'round_n', ('lit', '25.1'), -1), ('fn', 'round_n', ('lit', '1350'), -2),
+    ('fn', 'round_n', ('lit', '1250'), -2), ('fn', 'round_n', ('neg', ('lit', '1250.5')), -2), ('fn', 'floor', ('neg', ('lit', '0.5'))), ('fn', 'ceil', ('neg', ('lit', '0.5'))),
     ('fn', 'int', ('neg', ('lit', '1.9'))), ('fn', 'sum', [('lit', '0.1')] * 10),
     ('bin', '+', ('fn', 'floor', ('lit', '1.5')), ('bin', '/', ('lit', '2'), ('lit', '3'))),
     ('bin', '+', ('fn', 'ceil', ('lit', '1.5')), ('bin', '/', ('neg', ('lit', '2')), ('lit', '3'))),
@@ -267,7 +268,9 @@ def trees(draw):
             return ('fn', pick(['abs', 'floor', 'ceil', 'int', 'round']), g(d - 1))
         if c == 10:
             inner = small_lit() if n(2) else ('bin', pick('+-*/'), small_lit(), small_lit())
-            return ('fn', 'round_n', inner, n(8))
+            if n(3) == 0:
+                inner = ('lit', pick(['1250.5', '25.1', '1350.5', '149.99', '150', '250', '5', '15.000001', '999.5', '0.5', '50']))
+            return ('fn', 'round_n', inner, n(8) if n(3) else -1 - n(3))
         if c == 11:
             return ('fn', pick(['sum', 'min', 'max']), [g(d - 1) for _ in range(1 + n(5))])
         if c == 12:
